@@ -67,7 +67,7 @@ func init() {
 			"'never early' is one-sided: the start instant is read before Play/MultiPlay is called, so machine load can only delay sends, never make the check fire",
 			"sysex events in tracks are not constrained (the statement speaks of channel messages and meta events)",
 		},
-		Require:         []string{"plays", "sends_observed", "same_tick_runs_ge_13", "cross_track_same_tick", "selections_proper_subset", "maps_without_default", "never_early_checks", "play_single_port", "replays_with_rerouted_map", "late_schedule_plays", "round_gap_plays", "selections_with_repeated_tracks", "long_plays_on_virtual_clock", "slow_ports", "files_with_tempo_curves_over_32_changes"},
+		Require:         []string{"plays", "sends_observed", "same_tick_runs_ge_13", "cross_track_same_tick", "selections_proper_subset", "maps_without_default", "never_early_checks", "play_single_port", "replays_with_rerouted_map", "replays_with_another_map", "late_schedule_plays", "round_gap_plays", "selections_with_repeated_tracks", "long_plays_on_virtual_clock", "slow_ports", "files_with_tempo_curves_over_32_changes"},
 		FakeTimeWorkers: 2,
 		Workers:         16,
 		Run:             runC12,
@@ -434,6 +434,65 @@ func runC12(c *mon.Ctx) {
 							}
 						}
 					}
+				}
+			}
+		}
+		// one reader played several times with DIFFERENT maps: tracks without a port in one play get one in the next
+		// (or the default appears / disappears); every play sends exactly what its own map says
+		if nt >= 2 {
+			log := &playLog{}
+			ps := []*fakeOut{{id: 1, log: log, open: true}, {id: 2, log: log, open: true}, {id: 3, log: log, open: true}}
+			trd := smf.ReadTracksFrom(bytes.NewReader(b))
+			var maps []string
+			for play := 0; play < 3 && trd.Error() == nil; play++ {
+				outs := map[int]drivers.Out{}
+				for t := 0; t < nt; t++ {
+					if r.P(1, 2) {
+						outs[t] = ps[r.Intn(3)]
+					}
+				}
+				if (play > 0 && r.P(1, 3)) || len(outs) == 0 {
+					outs[-1] = ps[r.Intn(3)]
+				}
+				maps = append(maps, fmt.Sprint(keysOf(outs)))
+				in := map[string]any{"file": mon.Hex(b), "tracks": nt, "scenario": "the same TracksReader played with one map after the other", "maps (track:port, -1 = default)": fmt.Sprint(maps)}
+				first := len(log.recs)
+				log.t0 = time.Now()
+				var err error
+				if c.Guard("panic:Play", in, func() { err = trd.MultiPlay(outs) }) {
+					break
+				}
+				if err != nil {
+					c.Violation("play-error", err.Error(), in, nil, err.Error())
+					break
+				}
+				c.Count("replays_with_another_map", 1)
+				c.Eval(1)
+				want := map[string]int{}
+				for _, e := range truth {
+					if o, ok := outs[e.track]; ok {
+						want[string(e.msg)] = o.(*fakeOut).id
+					} else if o, ok := outs[-1]; ok {
+						want[string(e.msg)] = o.(*fakeOut).id
+					}
+				}
+				got := log.recs[first:]
+				seen := map[string]bool{}
+				bad := false
+				for _, sr := range got {
+					if pt, ok := want[string(sr.data)]; !ok || pt != sr.port || seen[string(sr.data)] {
+						c.Violation("replay-other-map", fmt.Sprintf("play %d of the same reader: message % X went to port %d (sent before in this play: %v), this play's map gives port %d (0 = none)", play+1, sr.data, sr.port, seen[string(sr.data)], pt), in, pt, sr.port)
+						bad = true
+						break
+					}
+					seen[string(sr.data)] = true
+				}
+				if !bad && len(got) != len(want) {
+					c.Violation("replay-other-map-count", fmt.Sprintf("play %d of the same reader sent %d messages, its map selects %d", play+1, len(got), len(want)), in, len(want), len(got))
+					bad = true
+				}
+				if bad {
+					break
 				}
 			}
 		}
